@@ -194,16 +194,31 @@ func AsField(v ssa.Value) (FieldRef, bool) {
 		if st == nil {
 			return FieldRef{}, false
 		}
-		return FieldRef{Base: x.X, Struct: TypeName(x.X.Type()), Field: st.Field(x.Field).Name()}, true
+		return FieldRef{Base: x.X, Struct: TypeName(x.X.Type()), Field: fieldName(x.X.Type(), st.Field(x.Field).Name())}, true
 	case *ssa.Field:
 		st := derefStruct(x.X.Type())
 		if st == nil {
 			return FieldRef{}, false
 		}
-		return FieldRef{Base: x.X, Struct: TypeName(x.X.Type()), Field: st.Field(x.Field).Name()}, true
+		return FieldRef{Base: x.X, Struct: TypeName(x.X.Type()), Field: fieldName(x.X.Type(), st.Field(x.Field).Name())}, true
 	}
 	return FieldRef{}, false
 }
+
+// fieldName applies the renamed-field table of the loader (a field recognised as renamed is seen under
+// the name the rule tables use).
+func fieldName(t types.Type, name string) string {
+	if len(load.FieldAlias) == 0 {
+		return name
+	}
+	if a, ok := load.FieldAlias[typeName(t)][name]; ok {
+		return a
+	}
+	return name
+}
+
+// FieldName is fieldName for callers that enumerate a struct's fields themselves.
+func FieldName(t types.Type, name string) string { return fieldName(t, name) }
 
 func derefStruct(t types.Type) *types.Struct {
 	if p, ok := t.Underlying().(*types.Pointer); ok {
